@@ -686,6 +686,23 @@ func runC12(c *Ctx) {
 						failedJoin = true
 					}
 				}
+				// `ok, …, … := canJoin(…)` as a statement of its own, then `if !ok { … }`
+				if !failedJoin {
+					for _, a := range guards {
+						if id, ok := ast.Unparen(a.E).(*ast.Ident); ok && !a.Truth && a.Tag == nil {
+							defs := allDefs(info, fi.Decl.Body, id)
+							all := len(defs) > 0
+							for _, d := range defs {
+								if call, ok := d.(*ast.CallExpr); !ok || !isCallTo(info, call, "internal/parser/utils.canJoin") {
+									all = false
+								}
+							}
+							if all {
+								failedJoin = true
+							}
+						}
+					}
+				}
 				ctx, why := "", ""
 				switch {
 				case failedJoin:
